@@ -181,6 +181,11 @@ func (w *World) after(d time.Duration, name string, fn func()) *tev {
 	return e
 }
 
+// BeforeTeardown, when set, is called right before the scheduler releases every remaining task at once to
+// let it unwind (the race instrument stops listening there: during teardown the virtual locks no longer
+// exclude anybody).
+var BeforeTeardown func()
+
 // caller wraps the body of a task that calls into the broker from outside (API caller, Stop, observer): an
 // embedding program calls the services of a server it has started, so the task is ordered after the
 // moment the broker last asked its listener for a connection (race detector only; no effect otherwise).
@@ -811,6 +816,9 @@ func runBubble(t *testing.T, plan *Plan, setup *Setup, out *Outcome) {
 		out.Faults = w.Faults
 		out.Probes = w.Probes
 		out.Faults["sched.switch"] = s.Switches
+		if BeforeTeardown != nil {
+			BeforeTeardown()
+		}
 		s.Teardown()
 	}
 }
